@@ -73,10 +73,10 @@ class Canon:
                 self.start = c
                 last_snap, last_state = c.snap, c.state
                 continue
-            if c.kind == "FEND":
+            if c.kind in ("FEND", "FENDC"):
                 pend_eof.append(c)
                 continue
-            if c.kind in ("FREE", "END"):
+            if c.kind in ("FREE", "END", "ENDC"):
                 continue
             if c.kind == "FEED":
                 i += 1
@@ -182,11 +182,14 @@ def fold_check(canon, calls, ops, flags, compare_eof=True):
             diverged = True
 
     for c in calls:
-        if c.kind in ("FEND", "END"):
-            if eof_buf and eof_kind == c.kind and eof_buf[-1].op == c.op:
+        if c.kind in ("FEND", "END", "FENDC", "ENDC"):
+            if c.kind in ("FENDC", "ENDC") and eof_buf:
                 eof_buf.append(c)
             else:
                 flush_eof()
+                if ended:
+                    # end() already ran on the real state: later end() calls are post-EOF history
+                    continue
                 eof_buf, eof_kind = [c], c.kind
             if c.kind == "END":
                 ended = True
@@ -324,14 +327,14 @@ def law_check(calls, ops, flags, is_canonical=False):
         if cls == "YIELD" and not yields:
             out.append(V("P4", "yield-code-without-yield-support", c.op, c.sid, c.brief()))
         op = ops.get(c.op, {})
-        if c.kind in ("END", "FEND"):
+        if c.kind in ("END", "FEND", "ENDC", "FENDC"):
             if failed:
                 probes["end_after_fail"] += 1
                 if cls != "FAIL":
                     out.append(V("P2", "end-after-FAIL-not-FAIL", c.op, c.sid, c.brief()))
                 if c.events:
                     out.append(V("P2", "hook-after-FAIL", c.op, c.sid, c.brief()))
-            if c.kind == "END":
+            if c.kind in ("END", "ENDC"):
                 prev = c
             continue
         if c.kind in ("FEED", "FEED0"):
@@ -382,10 +385,9 @@ def end_law_check(calls):
     groups = []
     for c in calls:
         if c.kind in ("END", "FEND"):
-            if groups and groups[-1][0].op == c.op and groups[-1][0].kind == c.kind:
-                groups[-1].append(c)
-            else:
-                groups.append([c])
+            groups.append([c])
+        elif c.kind in ("ENDC", "FENDC") and groups:
+            groups[-1].append(c)
     for g in groups:
         if g[-1].cls() not in TERMINAL:
             out.append(V("P8", "end-did-not-reach-a-terminal-code", g[0].op, g[0].sid, str([x.brief() for x in g])))
